@@ -50,7 +50,7 @@ def strategy(tier, unit):
             "disp": st.lists(st.tuples(num(), num()).map(list), min_size=12, max_size=12),
             "how": st.sampled_from(["path", "path", "path+blockname", "open-then-read(cifblk)", "open-then-read()", "open(blockname)-then-read()"]),
             "colperm": st.integers(0, 10 ** 6),
-            "global": st.booleans(), "blockname": st.from_regex(r"[a-z][a-z0-9]{0,6}", fullmatch=True).filter(lambda s: s != "global")})
+            "global": st.booleans(), "global_last": st.booleans(), "blockname": st.from_regex(r"[a-z][a-z0-9]{0,6}", fullmatch=True).filter(lambda s: s != "global")})
     atom = st.fixed_dictionaries({
         "el": st.integers(0, 93), "frac": st.one_of(st.tuples(S.fl(0.02, 0.98), S.fl(0.02, 0.98), S.fl(0.02, 0.98)).map(list), st.just([0.0, 0.0, 0.0])),
         "occ": S.fl(0.01, 1.0), "b": st.one_of(S.fl(0.5, 99.0), S.fl(99.0, 999.0)), "het": st.booleans(),
@@ -92,7 +92,7 @@ def write_cif(case):
     sym = "".join(ch + (" " if bl[i % len(bl)] else "") for i, ch in enumerate(nm)).strip()
     L = []
     exp = {"sgname": nm}
-    if case["global"]:
+    if case["global"] and not case.get("global_last"):
         L += ["data_global", "_journal_name_full 'x'", ""]
     L += ["data_" + case["blockname"], "_symmetry_space_group_name_H-M '%s'" % sym]
     cell = []
@@ -218,6 +218,8 @@ def write_cif(case):
             u = " ".join(t for t, v in vals) if k == "Uani" else " ".join(["."] * 6)
             bb = " ".join(t for t, v in vals) if k == "Bani" else " ".join(["."] * 6)
             L.append(lab + (" " + u if hasU else "") + (" " + bb if hasB else ""))
+    if case["global"] and case.get("global_last"):
+        L += ["", "data_global", "_journal_name_full 'x'"]          # the extra block may just as well come last
     exp["atoms"] = eatoms
     exp["any_esd"] = any_esd
     exp["non_uiso"] = have_adp and any(a["kind"] != "Uiso" for a in atoms)
